@@ -97,6 +97,11 @@ def main():
     w, nw = cfg["w"], cfg["nw"]
     deadline = cfg["deadline"]
     max_runs = cfg.get("max_runs", 1 << 60)
+    # deterministic floor: every index below min_index is run even if the wall budget is over (a
+    # loaded machine must not shrink the explored seed set below what the check is known to need),
+    # but never beyond hard_deadline
+    min_index = cfg.get("min_index", 0)
+    hard_deadline = cfg.get("hard_deadline", deadline)
     i = cfg.get("start", 0)
     runs = 0
     only = cfg.get("only")
@@ -109,8 +114,10 @@ def main():
         if only is None and seed % nw != w:
             i += 1
             continue
-        if only is None and (time.time() > deadline or i >= max_runs):
-            break
+        if only is None:
+            now = time.time()
+            if i >= max_runs or now > hard_deadline or (now > deadline and i >= min_index):
+                break
         emit({"ev": "begin", "i": i, "seed": seed})
         t0 = time.time()
         try:
